@@ -127,6 +127,46 @@ theorem C20_deadlock_free {s : State} (h : Reachable s) (t : Tid) (hp : s.prog t
         · exact ⟨_, rfl⟩
         · exact ⟨_, rfl⟩
 
+/-- C20, nothing is forgotten: an entry, once present, stays with its value through every later step of every thread —
+however many keys the cache holds (the model has no capacity because none may exist: `no_eviction_ok`), and whatever any
+other cache does (a cache's state is its own value: `no_shared_state_ok`, `cache_fields_ok`). -/
+theorem C20_entries_monotone {s s' : State} (h : Reachable s) (hs : Steps s s') {k : Key} {v : Val}
+    (he : s.entries k = some v) : s'.entries k = some v := by
+  -- one step of one thread
+  have step : ∀ {a b : State} {t : Tid}, Inv a → next a t = some b → a.entries k = some v → b.entries k = some v := by
+    intro a b t inv hn hk
+    unfold next at hn
+    split at hn
+    · cases hn
+    · rename_i op rest hp
+      split at hn
+      · split at hn
+        · cases hn
+        · cases hn; exact hk
+      · cases hn; exact hk
+      · cases hn; exact hk
+      · split at hn
+        · cases hn
+        · cases hn; exact hk
+      · cases hn; exact hk
+      · split at hn <;> (cases hn; exact hk)
+      · -- the store: the key being stored was absent, so it is not `k`
+        rename_i v' hpc
+        cases hn
+        simp only [upd]
+        split
+        · rename_i e
+          have := (inv.callok_none t op rest v' hp hpc).1
+          rw [← e, hk] at this; cases this
+        · exact hk
+      · cases hn; exact hk
+      · cases hn; exact hk
+  induction hs with
+  | refl => exact he
+  | tail hst st ih =>
+    obtain ⟨t, ht⟩ := st
+    exact step (inv_steps (inv_reachable h) hst) ht ih
+
 /-- C20, freezing does not matter: `Freeze` — which Starlark applies to a module-level cache before any target body
 runs — leaves the state as it is, so every theorem above holds for frozen caches exactly as for fresh ones: a frozen
 cache still stores what it computes, later callers still get that value without recomputing. (The abstraction rests on
